@@ -465,7 +465,14 @@ func genJSONValue(r *core.Rand, depth int) cty.Value {
 	case 0, 1:
 		s, _ := genStr(r, 5)
 		if r.Chance(1, 5) {
-			s = pick(r, []string{"<a>", "&", "\"q\"", "back\\slash", " ", "\t", "\x7f", "\x00", "\u001f", "/"})
+			s = pick(r, []string{"<a>", "&", "\"q\"", "back\\slash", "\u2028", "\t", "\x7f", "\x00", "\u001f", "/"})
+		}
+		if r.Chance(1, 12) {
+			// a character that JSON writes as an escape sequence, followed by a run of combining marks
+			s += pick(r, []string{"\n", "\t", "\r", "\b", "\f", "\x1e", "\x1a", "\x0b", "\"", "\\"})
+			for k := 1 + r.Intn(3); k > 0; k-- {
+				s += pick(r, []string{"\u0301", "\u0323", "\u0327", "\u0338", "\u0f71", "\u0f72", "\u05b0", "\u0308", "\u030a", "\u0307", "\U0001d165"})
+			}
 		}
 		return sv(s)
 	case 2, 3:
